@@ -541,6 +541,11 @@ def list_objects_post(prop):
                 n += 1
                 q = res.interp.deref(p.st, ops.resolve(p.st, e.data['kwargs']['query']))
                 pc = p.pc_at(e)
+                # the query is a mapping built by THIS call (list-type plus the caller's token / prefix): state that
+                # survives between calls or instances would leak an earlier token or prefix into this request
+                res.oblige(pc, f'{prop}.s3.list_objects.query_built_per_call', z3.BoolVal(isinstance(q, dict)))
+                if not isinstance(q, dict):
+                    continue
                 res.oblige(pc, f'{prop}.s3.list_objects.bucket_listing_v2', z3.And(
                     sym.lift(e.data['method'], STR).z == S('GET'),
                     sym.lift(e.data['uri'], STR).z == z3.Concat(S('/'), b.me.get('bucket_name').z),
